@@ -1,7 +1,6 @@
-(** VARIANT model for the proposed repairs notes/C11-fix-2.patch (the output is spliced with a
-    closure replacer: it is text, not a Regex::replace template) and notes/C11-fix-3.patch (inside
-    double quotes only the trailing newlines of the output are removed).  The model of the code as
-    it IS stays in Model/Expand.v; this file becomes the model if the patches are committed. *)
+(** VARIANT model for the proposed repair notes/C11-fix-3.patch (inside double quotes only the trailing
+    newlines of the output are removed; not applied).  The model of the code as it IS stays in
+    Model/Expand.v.  [strip_nl] is also the trimming the property asks for. *)
 From Coq Require Import ZArith.
 From Cicada Require Import Base.Chars Base.Tag Model.Expand.
 Local Open Scope N_scope.
@@ -17,11 +16,6 @@ Definition strip_nl (s : str) : str := rev (drop_nl (rev s)).
 (** fix-3: a double-quoted token keeps everything but the trailing newlines; other tokens trim as before *)
 Definition trim_out (tg : tag) (out : str) : str := if tag_eqb tg TDq then strip_nl out else trim out.
 
-(** fix-2: the replacer is a closure that concatenates the head group, the output and the tail group *)
-Definition dollar_splice_v (before cmd tail post out : str) : str :=
-  let (pre, head) := head_of before in
-  pre ++ (head ++ out ++ tail) ++ post.
-
 Fixpoint dollar_loop_v (fuel : nat) (W : World) (tg : tag) (line : str) (log : list str)
   : res (option str * list str) :=
   match fuel with
@@ -32,10 +26,7 @@ Fixpoint dollar_loop_v (fuel : nat) (W : World) (tg : tag) (line : str) (log : l
            | None => Ok (None, log)
            | Some (before, cmd, tail, post) =>
                let out := match run_capture W cmd with Some o => o | None => [] end in
-               dollar_loop_v f W tg (dollar_splice_v before cmd tail post (trim_out tg out)) (log ++ [cmd])
+               dollar_loop_v f W tg (dollar_splice before cmd tail post (trim_out tg out)) (log ++ [cmd])
            end
   end.
 
-(** notes/C12-fix-2.patch: expand_home with a closure replacer (the home directory is text) *)
-Definition home_replace_v (W : World) (rest : str) : str :=
-  let (tl, post) := split_nl rest in (home W ++ tl) ++ post.
